@@ -73,7 +73,7 @@ func writeReplay(p *Prog, pd *PropDef, ob *Obligation, opts SolveOpts) (string, 
 		if !ok {
 			continue
 		}
-		src := buildReplayTest(rc)
+		src := strings.ReplaceAll(buildReplayTest(rc), "__FUNC__", ob.Func)
 		out, repro := runReplayTest(p.RepoDir, src, rc.Race)
 		rf.Replay = &ReplayOutcome{Case: rc.Pattern, Reproduced: repro, Output: tail(out, 4000), TestSource: src}
 		if repro {
